@@ -861,6 +861,57 @@ fn family_render(run: &Run, cnt: &Cnt, thorough: bool) {
       }
     }
   }
+  // What a request leaves behind in the worker that served it: an input context that does not parse, with entry names
+  // that read like expressions, is sent often enough to reach every worker of the service (connections are dealt to the
+  // workers in turn; 4 rounds), then the same well-formed evaluation is asked of every worker again.
+  {
+    let workers = std::thread::available_parallelism().map(|n| n.get()).unwrap_or(16);
+    let leftovers: [(&str, &str, &str); 4] = [
+      ("{a-b: 1, x: ", "{a: 5, b: 2, x: a-b}", "3"),
+      ("{a+b: 1, x: ", "{a: 5, b: 2, x: a+b}", "7"),
+      ("{a b: 1, x: ", "{a: 5, b: 2, x: [a][1]}", "5"),
+      ("{x: {a*b: 1}, y: ", "{a: 5, b: 2, x: a*b}", "10"),
+    ];
+    for (broken, probe, expected) in leftovers {
+      let fault = Req { method: "POST", path: "/evaluate/echo/Echo".into(), content_type: Some("text/plain"), body: broken.as_bytes().to_vec() };
+      let ask = Req { method: "POST", path: "/evaluate/echo/Echo".into(), content_type: Some("text/plain"), body: probe.as_bytes().to_vec() };
+      let replay = json!({"engine":"c18","setup":"echo","requests":[req_json(&fault), req_json(&ask)],"repeat":[workers * 4, workers * 3],"expected":expected});
+      for round in 0..2 {
+        // round 0: before any malformed request; round 1: after every worker has seen it
+        if round == 1 {
+          for _ in 0..workers * 4 {
+            cnt.requests.fetch_add(1, Ordering::Relaxed);
+            match send(port, &fault) {
+              Ok(resp) => {
+                let _ = envelope(run, &format!("malformed input context `{}`", broken), "render:leftover:malformed-request", &resp, &replay);
+              }
+              Err(e) => run.violation("render:leftover:no-answer", &format!("malformed input context `{}`: no answer: {}", broken, e), replay.clone()),
+            }
+          }
+        }
+        for _ in 0..workers * 3 {
+          cnt.requests.fetch_add(1, Ordering::Relaxed);
+          match send(port, &ask) {
+            Ok(resp) => {
+              let what = format!("evaluation with the input `{}` {}", probe, if round == 0 { "on the fresh service".to_string() } else { format!("after the malformed input `{}` was answered by every worker", broken) });
+              if let Some(res) = envelope(run, &what, "render:leftover:evaluate", &resp, &replay) {
+                cnt.compared.fetch_add(1, Ordering::Relaxed);
+                let shown = match &res {
+                  Ok(d) => d.show(),
+                  Err(e) => format!("errors `{}`", e),
+                };
+                if shown != expected {
+                  run.violation(&format!("render:leftover:{}:another-value", if round == 0 { "fresh-service" } else { "after-a-malformed-request" }), &format!("{}: answers {} instead of {}", what, shown, expected), replay.clone());
+                  break;
+                }
+              }
+            }
+            Err(e) => run.violation("render:leftover:no-answer", &format!("evaluation with the input `{}`: no answer: {}", probe, e), replay.clone()),
+          }
+        }
+      }
+    }
+  }
   let all = samples(thorough);
   all.par_iter().for_each(|s| {
     // FEEL context body
@@ -1519,6 +1570,12 @@ pub fn replay_case(case: &serde_json::Value) -> String {
       };
       let body = r.get("body_base64").and_then(|b| b.as_str()).and_then(|b| base64::decode(b).ok()).unwrap_or_default();
       let req = Req { method, path: r.get("path").and_then(|p| p.as_str()).unwrap_or("/").to_string(), content_type: ct, body };
+      // "repeat": how often each request is sent (to reach every worker of the service); every answer to the last one is judged
+      let times = case.get("repeat").and_then(|x| x.as_array()).and_then(|a| a.get(k)).and_then(|x| x.as_u64()).unwrap_or(1);
+      for _ in 0..times {
+      if verdict == Some(false) {
+        break;
+      }
       match send(server.port, &req) {
         Ok(resp) => {
           last = format!("{} {} -> {} {}", req.method, req.path, resp.status, String::from_utf8_lossy(&resp.body).chars().take(300).collect::<String>());
@@ -1568,6 +1625,7 @@ pub fn replay_case(case: &serde_json::Value) -> String {
             verdict = Some(false);
           }
         }
+      }
       }
     }
   }
